@@ -18,9 +18,13 @@ PROPERTY = "C04"
 RULE = (
     "Hypothesis draws (a) one of the 12 homogeneous-family classes in 2-D/3-D with bounded-condition parameters "
     "(projective Homogeneous with divisor in [0.7, 1.3] on the probe points; alignments fitted to member(source)+noise) "
-    "and probe points x, y; (b) PythonPWA / CachedPWA over a Delaunay (PointCloud source) or an explicit lattice "
+    "and probe points x, y (closed-form classes also with integer-typed constructor arguments), plus a valid parameter "
+    "vector of the class for pseudoinverse_vector; (a') the same 12 classes after 1-3 updates of an existing object "
+    "(from_vector[_inplace], compose_{before,after}_inplace with a member of the family swallowed in place, set_target, "
+    "copy, an earlier pseudoinverse()), alignments on PointCloud / TriMesh / landmarked end points; (b) PythonPWA / CachedPWA over a Delaunay (PointCloud source) or an explicit lattice "
     "triangulation (TriMesh source) whose target is affine(source + per-vertex displacement <= 0.2 x the smallest "
-    "altitude of the incident triangles) so every target triangle keeps its orientation, with x strictly inside source "
+    "altitude of the incident triangles) so the target triangles all keep (or, reflecting affine part, all reverse) their "
+    "orientation, the target given at construction or by a later set_target, with x strictly inside source "
     "triangles and y strictly inside target triangles; (c) ThinPlateSplines with kernel None / R2LogR2RBF / R2LogRRBF "
     "and min_singular_val 1e-4 or 1e-2 on 4-9 jittered-lattice landmarks and off-landmark probes; (d) image shapes and "
     "texture coordinates.  Non-trivial: the class declares a true inverse (a, b) and the map moves a probe / landmark by "
@@ -30,13 +34,22 @@ ASSUMPTIONS = [
     "the forward matrix of an alignment is read from t.h_matrix (its fit is C07's subject); plain classes use an "
     "independently assembled matrix; the reference inverse solves h z = (y,1) per point with numpy.linalg.solve",
     "class honesty is a predicate table on the inverse's h_matrix evaluated for every table class the inverse is an "
-    "instance of (tolerance 1e-9 x magnitude); the inverse need not have the same class as the transform",
+    "instance of (tolerance 1e-9 x magnitude); the class itself is held to the docstrings: type(self) for alignments and "
+    "warps, an instance of the transform's own class for the plain homogeneous members",
+    "after in-place compositions the target of a non-affine alignment lags behind its matrix (menpo does not re-sync it): "
+    "'exchanged' is judged against the end points the object reports at the time of inversion, 'inverse map' against its "
+    "h_matrix at that time",
+    "pseudoinverse_vector is exercised only where menpo declares the class vectorisable (not 2-D Rotation, 3-D Similarity); "
+    "the receiver's own vector is used only when it can represent the receiver (no mirrored Similarity / Rotation fits)",
+    "independence of a returned inverse: it is retargeted and its matrix overwritten in place; nothing is written into "
+    "the source / target point sets, which the two objects may share",
     "TPS: exact return of target landmarks is demanded only when the reverse bordered system has no singular value below "
     "the floor (measured with the reference system, >= 99% of min_singular_val=1e-4 cases); with an active floor only the "
     "equality with the fresh reverse fit and with the lstsq(rcond) reference is demanded, and the latter only when no "
     "singular value lies within a factor 2 of the floor",
     "PWA triangles used for probe points have area >= 0.5% of the squared extent so containment is never decided by rounding",
-    "identity of source/target objects after inversion is not examined, only their coordinates",
+    "identity of source/target objects after inversion is not examined: their coordinates (exactly) and, for the "
+    "homogeneous family, their public view (class, connectivity, landmarks)",
 ]
 
 _CACHE = ("._applied_points", "._iab")
@@ -51,16 +64,253 @@ def _scale(*xs):
     return m
 
 
+def _base(kind):
+    return kind[len("Alignment"):] if kind.startswith("Alignment") else kind
+
+
+# classes a transform composes IN PLACE with (its `composes_inplace_with`), by base class name
+_FAMILY = {
+    "Homogeneous": ["Homogeneous", "Affine", "Similarity", "Rotation", "Translation", "UniformScale", "NonUniformScale"],
+    "Affine": ["Affine", "Similarity", "Rotation", "Translation", "UniformScale", "NonUniformScale"],
+    "Similarity": ["Similarity", "Rotation", "Translation", "UniformScale"],
+    "Rotation": ["Rotation"],
+    "Translation": ["Translation"],
+    "UniformScale": ["UniformScale"],
+    "NonUniformScale": ["NonUniformScale", "UniformScale"],
+}
+_MIRROR_LOSSY = ("Similarity", "Rotation")  # as_vector cannot represent a mirrored member of these
+
+
+def _q16(v):
+    return [round(float(a) * 65536) / 65536 for a in np.asarray(v, dtype=float).ravel()]
+
+
+@st.composite
+def s_param_vector(draw, base, d):
+    """A valid parameter vector (layout of as_vector) of class `base` in d dimensions, assembled without menpo; None where
+    menpo declares the class not vectorisable (2-D Rotation, 3-D Similarity)."""
+    if base == "Homogeneous":
+        return _q16(objs.ref_h(draw(objs.homog_case(kind="Homogeneous", d=d))))
+    if base == "Affine":
+        h = rw.hm(gen.build_linear(d, draw(gen.linear_case(d))), draw(gen.vec(d)))
+        return _q16((h - np.eye(d + 1))[:d, :].ravel(order="F"))
+    if base == "Similarity":
+        if d != 2:
+            return None
+        k, th, tr = draw(gen.q(0.25, 4)), draw(gen.q(-3.14, 3.14)), draw(gen.vec(2))
+        return _q16([k * np.cos(th) - 1.0, k * np.sin(th)] + tr)
+    if base == "Rotation":
+        if d != 3:
+            return None
+        return _q16(gen.build_unit_quaternion(draw(gen.unit_quaternion_case())))
+    if base == "Translation":
+        return draw(gen.vec(d))
+    if base == "UniformScale":
+        return [draw(gen.q(0.25, 4))]
+    if base == "NonUniformScale":
+        return draw(st.lists(gen.q(0.25, 4), min_size=d, max_size=d))
+    raise KeyError(base)
+
+
+@st.composite
+def s_int_params(draw, kind, d):
+    """Integer-typed constructor arguments of the closed-form classes (legal input; the inverse is not integral)."""
+    if kind == "Translation":
+        return {"t": draw(st.lists(st.integers(-9, 9), min_size=d, max_size=d))}
+    if kind == "NonUniformScale":
+        return {"s": draw(st.lists(st.integers(1, 4), min_size=d, max_size=d))}
+    if kind == "UniformScale":
+        return {"s": draw(st.integers(1, 4)), "np": draw(st.booleans())}
+    # Rotation: a signed permutation matrix of determinant +1 (a composition of quarter turns)
+    perm = draw(st.permutations(list(range(d))))
+    signs = draw(st.lists(st.sampled_from([-1, 1]), min_size=d, max_size=d))
+    m = np.zeros((d, d), dtype=int)
+    for r in range(d):
+        m[r, perm[r]] = signs[r]
+    if round(float(np.linalg.det(m))) < 0:
+        m[0] = -m[0]
+    return {"m": m.tolist()}
+
+
+_INT_KINDS = ("Translation", "NonUniformScale", "UniformScale", "Rotation")
+
+
+def _ref_h(tc):
+    ip = tc.get("int")
+    if ip is None:
+        return objs.ref_h(tc)
+    kind, d = tc["kind"], tc["d"]
+    if kind == "Translation":
+        return rw.hm(np.eye(d), ip["t"])
+    if kind == "NonUniformScale":
+        return rw.hm(np.diag(np.array(ip["s"], dtype=float)), np.zeros(d))
+    if kind == "UniformScale":
+        return rw.hm(np.eye(d) * float(ip["s"]), np.zeros(d))
+    return rw.hm(np.array(ip["m"], dtype=float), np.zeros(d))
+
+
+def _shape(pts, form, d):
+    """A point set in one of the shapes an alignment accepts as source / target."""
+    pts = np.array(pts, dtype=float)
+    if form == "trimesh":
+        return TriMesh(pts, trilist=np.array([[0, 1, 2], [1, 3, 2]], dtype=int))
+    pc = PointCloud(pts)
+    if form == "landmarked":
+        pc.landmarks["g"] = PointCloud(pts[:3] + 0.25)
+    return pc
+
+
+_FORMS = ["pointcloud", "pointcloud", "trimesh", "landmarked"]
+
+
+def _build(tc, src_form="pointcloud", tgt_form="pointcloud"):
+    kind, d = tc["kind"], tc["d"]
+    ip = tc.get("int")
+    if ip is not None:
+        if kind == "Translation":
+            return mt.Translation(np.array(ip["t"], dtype=np.int64))
+        if kind == "NonUniformScale":
+            return mt.NonUniformScale(np.array(ip["s"], dtype=np.int64))
+        if kind == "UniformScale":
+            return mt.UniformScale(np.int64(ip["s"]) if ip["np"] else int(ip["s"]), d)
+        return mt.Rotation(np.array(ip["m"], dtype=np.int64))
+    if kind not in objs.ALIGN_KINDS or (src_form == "pointcloud" and tgt_form == "pointcloud"):
+        return objs.build_homog(tc)
+    src, tgt = _shape(tc["src"], src_form, d), _shape(tc["tgt"], tgt_form, d)
+    if kind == "AlignmentSimilarity":
+        return mt.AlignmentSimilarity(src, tgt, rotation=tc["rotation"], allow_mirror=tc["allow_mirror"])
+    if kind == "AlignmentRotation":
+        return mt.AlignmentRotation(src, tgt, allow_mirror=tc["allow_mirror"])
+    return getattr(mt, kind)(src, tgt)
+
+
 # ------------------------------------------------------------------------------------------ homogeneous family
 @st.composite
 def s_homog(draw):
     tc = draw(objs.homog_case())
     d = tc["d"]
+    if tc["kind"] in _INT_KINDS and draw(st.integers(0, 4)) == 0:
+        tc["int"] = draw(s_int_params(tc["kind"], d))
     return {
         "t": tc,
         "x": draw(st.lists(gen.vec(d, -10, 10), min_size=1, max_size=6)),
         "y": draw(st.lists(gen.vec(d, -10, 10), min_size=1, max_size=6)),
+        # a parameter vector of the class, for pseudoinverse_vector (None: not vectorisable in this dimension)
+        "pv": draw(s_param_vector(_base(tc["kind"]), d)),
     }
+
+
+def _check_class(ctx, t, inv, kind):
+    """The inverse has the class the docstrings promise: type(self) for alignments, the class itself for plain members."""
+    if kind in objs.ALIGN_KINDS:
+        ctx.expect(type(inv) is type(t), "inverse_class.alignment_inverse_not_type_of_self", "%s -> %s" % (kind, type(inv).__name__))
+    else:
+        ctx.expect(isinstance(inv, getattr(mt, kind)), "inverse_class.not_the_documented_class", "%s -> %s" % (kind, type(inv).__name__))
+
+
+def _check_honest(ctx, inv, kind):
+    if ctx.expect(isinstance(inv, mt.Homogeneous) and not isinstance(inv, mt.TransformChain), "inverse_not_homogeneous_family",
+                  "%s -> %s" % (kind, type(inv).__name__)):
+        hi = np.asarray(inv.h_matrix, dtype=float)
+        ctx.event("inverse class=%s" % type(inv).__name__)
+        for name in rw.HONESTY_TABLE:
+            if isinstance(inv, getattr(mt, name)):
+                ctx.expect(rw.honest(name, hi), "inverse_not_honest." + name,
+                           lambda: "inverse of %s reports %s, matrix\n%s" % (kind, type(inv).__name__, np.array2string(hi, precision=8)))
+
+
+def _check_swap(ctx, inv, kind, src_obj, tgt_obj, src, tgt):
+    """inv.source is what the transform's target was and vice versa: coordinates exactly, and the shape a caller reads
+    back (class, connectivity, landmarks) too.  Object identity is left open."""
+    if not ctx.expect(isinstance(inv, Alignment), "alignment_inverse.not_an_alignment", type(inv).__name__):
+        return False
+    ctx.expect(np.array_equal(np.asarray(inv.source.points), tgt), "alignment_inverse.source_is_not_old_target",
+               lambda: "%s\n%s" % (kind, describe(inv.source.points, tgt)))
+    ctx.expect(np.array_equal(np.asarray(inv.target.points), src), "alignment_inverse.target_is_not_old_source",
+               lambda: "%s\n%s" % (kind, describe(inv.target.points, src)))
+    if src_obj is not None:
+        d1, d2 = digest.public_diff(inv.source, tgt_obj), digest.public_diff(inv.target, src_obj)
+        ctx.expect(d1 is None, "alignment_inverse.source_is_not_the_shape_the_target_was", lambda: "%s: %s" % (kind, d1))
+        ctx.expect(d2 is None, "alignment_inverse.target_is_not_the_shape_the_source_was", lambda: "%s: %s" % (kind, d2))
+    return True
+
+
+def _check_double(ctx, t, inv, kind, x, fwd, atol, src=None, tgt=None):
+    """The inverse of the inverse is the transform again: same map; an alignment gets its end points back exactly and
+    still fits with the same options."""
+    ii = inv.pseudoinverse()
+    f2 = ii.apply(x)
+    ctx.expect(close(f2, fwd, rtol=0, atol=atol), "double_inverse.map_differs", lambda: "%s\n%s" % (kind, describe(f2, fwd)))
+    _check_class(ctx, t, ii, kind)
+    if kind not in objs.ALIGN_KINDS or not ctx.expect(isinstance(ii, Alignment), "double_inverse.not_an_alignment", type(ii).__name__):
+        return
+    ctx.expect(np.array_equal(np.asarray(ii.source.points), src), "double_inverse.source_not_restored",
+               lambda: "%s\n%s" % (kind, describe(ii.source.points, src)))
+    ctx.expect(np.array_equal(np.asarray(ii.target.points), tgt), "double_inverse.target_not_restored",
+               lambda: "%s\n%s" % (kind, describe(ii.target.points, tgt)))
+    for opt in ("rotation", "allow_mirror"):
+        if hasattr(t, opt):
+            ctx.expect(getattr(ii, opt, None) == getattr(t, opt), "double_inverse.option_lost." + opt,
+                       lambda: "%s: %r -> %r" % (kind, getattr(t, opt), getattr(ii, opt, None)))
+    # ... and behaves like it: both retargeted to the same new target give the same fit
+    new = np.asarray(tgt)[::-1] * 1.25 + 0.5
+    a = t.copy()
+    a.set_target(PointCloud(new.copy()))
+    ii.set_target(PointCloud(new.copy()))
+    ha, hb = np.asarray(a.h_matrix, dtype=float), np.asarray(ii.h_matrix, dtype=float)
+    ctx.expect(close(hb, ha, rtol=0, atol=1e-9 * _scale(ha)), "double_inverse.retargets_differently",
+               lambda: "%s\n%s" % (kind, describe(hb, ha)))
+
+
+def _check_independent(ctx, t, inv, kind, x, fwd, atol):
+    """What is done to the returned inverse afterwards does not reach the transform (nothing is written into the point
+    sets the two share by design)."""
+    ref = digest.digest(t)
+    if isinstance(inv, Alignment):
+        inv.set_target(PointCloud(np.array(inv.target.points, dtype=float) * 1.5 + 1.0))
+        dd = digest.parameter_mutation(ref, digest.digest(t))
+        ctx.expect(dd is None, "inverse_not_independent.retargeting_it_changes_the_transform", lambda: "%s: %r" % (kind, dd))
+    hm = inv.h_matrix
+    if isinstance(hm, np.ndarray) and hm.flags.writeable and hm.dtype.kind == "f":
+        hm[...] += 1.0
+        dd = digest.parameter_mutation(ref, digest.digest(t))
+        ctx.expect(dd is None, "inverse_not_independent.writing_its_matrix_changes_the_transform", lambda: "%s: %r" % (kind, dd))
+    again = t.pseudoinverse().apply(fwd)
+    ctx.expect(close(again, x, rtol=0, atol=atol), "inverse_not_independent.later_inverse_damaged",
+               lambda: "%s: inverse taken, written to, inverse taken again\n%s" % (kind, describe(again, x)))
+
+
+def _check_pinv_vector(ctx, t, kind, d, v, x, tag):
+    """VInvertible.pseudoinverse_vector: the parameters of the inverse of from_vector(v), in v's layout; receiver unchanged."""
+    v = np.array(v, dtype=float)
+    before = digest.digest(t)
+    try:
+        w = t.pseudoinverse_vector(v.copy())
+    except NotImplementedError:
+        ctx.event("pseudoinverse_vector: not vectorisable")
+        return
+    dd = digest.parameter_mutation(before, digest.digest(t))
+    ctx.expect(dd is None, "pseudoinverse_vector.receiver_changed", lambda: "%s: %r" % (kind, dd))
+    w = np.asarray(w)
+    if not ctx.expect(w.shape == v.shape, "pseudoinverse_vector.shape", "%s: %r -> %r" % (kind, v.shape, w.shape)):
+        return
+    tv, tw = t.from_vector(v.copy()), t.from_vector(np.array(w, dtype=float))
+    hv = np.array(tv.h_matrix, dtype=float)
+    cv = rw.cond_h(hv)
+    if cv > 1e5:
+        return
+    if _base(kind) == "Homogeneous" and not np.all(rw.divisors(hv, x) / hv[d, d] > 0.25):
+        ctx.event("pseudoinverse_vector: divisor near zero skipped")
+        return
+    ctx.event("pseudoinverse_vector checked (%s)" % tag)
+    f = tv.apply(x)
+    back = tw.apply(f)
+    atol = 1e-10 * cv * _scale(x, f, hv[:d, d])
+    ctx.expect(close(back, x, rtol=0, atol=atol), "pseudoinverse_vector.does_not_undo_from_vector." + tag,
+               lambda: "%s v=%r\n%s" % (kind, v.tolist(), describe(back, x)))
+    g = tv.apply(tw.apply(f))
+    ctx.expect(close(g, f, rtol=0, atol=atol * cv), "pseudoinverse_vector.not_a_right_inverse." + tag,
+               lambda: "%s v=%r\n%s" % (kind, v.tolist(), describe(g, f)))
 
 
 def c_homog(case, ctx):
@@ -68,8 +318,10 @@ def c_homog(case, ctx):
     kind, d = tc["kind"], tc["d"]
     is_align = kind in objs.ALIGN_KINDS
     ctx.event("class=%s %dD" % (kind, d))
-    t = objs.build_homog(tc)
-    h = objs.ref_h(tc)
+    if tc.get("int") is not None:
+        ctx.event("integer-typed parameters")
+    t = _build(tc)
+    h = _ref_h(tc)
     if h is None:
         h = np.array(t.h_matrix, dtype=float, copy=True)
     cond = rw.cond_h(h)
@@ -105,23 +357,28 @@ def c_homog(case, ctx):
         ctx.expect(close(pre, want, rtol=0, atol=tol * cond), "inverse_vs_solve_reference",
                    lambda: "%s cond=%.1f\n%s" % (kind, cond, describe(pre, want)))
 
-    # an honest member of the class it reports, not a chain
-    if ctx.expect(isinstance(inv, mt.Homogeneous) and not isinstance(inv, mt.TransformChain), "inverse_not_homogeneous_family",
-                  "%s -> %s" % (kind, type(inv).__name__)):
-        hi = np.asarray(inv.h_matrix, dtype=float)
-        ctx.event("inverse class=%s" % type(inv).__name__)
-        for name in rw.HONESTY_TABLE:
-            if isinstance(inv, getattr(mt, name)):
-                ctx.expect(rw.honest(name, hi), "inverse_not_honest." + name,
-                           lambda: "inverse of %s reports %s, matrix\n%s" % (kind, type(inv).__name__, np.array2string(hi, precision=8)))
+    # an honest member of the class it reports, not a chain; of the documented class
+    _check_honest(ctx, inv, kind)
+    _check_class(ctx, t, inv, kind)
 
+    src = tgt = None
     if is_align:
         src, tgt = gen.arr(tc["src"]), gen.arr(tc["tgt"])
-        if ctx.expect(isinstance(inv, Alignment), "alignment_inverse.not_an_alignment", type(inv).__name__):
-            ctx.expect(np.array_equal(np.asarray(inv.source.points), tgt), "alignment_inverse.source_is_not_old_target",
-                       lambda: "%s\n%s" % (kind, describe(inv.source.points, tgt)))
-            ctx.expect(np.array_equal(np.asarray(inv.target.points), src), "alignment_inverse.target_is_not_old_source",
-                       lambda: "%s\n%s" % (kind, describe(inv.target.points, src)))
+        _check_swap(ctx, inv, kind, None, None, src, tgt)
+
+    if declared:
+        _check_double(ctx, t, inv, kind, x, fwd, tol * cond, src, tgt)
+        if case.get("pv") is not None:
+            _check_pinv_vector(ctx, t, kind, d, case["pv"], x, "drawn_vector")
+        lin_det = float(np.linalg.det(h[:d, :d]))
+        if not (_base(kind) in _MIRROR_LOSSY and lin_det < 0):
+            try:
+                v0 = np.array(t.as_vector(), dtype=float)
+            except NotImplementedError:
+                v0 = None
+            if v0 is not None:
+                _check_pinv_vector(ctx, t, kind, d, v0, x, "own_vector")
+        _check_independent(ctx, t, t.pseudoinverse(), kind, x, fwd, tol)
 
     # the inverse depends only on the CURRENT parameters: invert, re-parametrise (retarget an alignment / from_vector),
     # invert again - the second inverse must undo the re-parametrised transform
@@ -160,6 +417,129 @@ def c_homog(case, ctx):
                        lambda: "%s: pseudoinverse() taken, then %s, then pseudoinverse() again\n%s" % (kind, how, describe(b2, x)))
 
 
+# ------------------------------------------------------------------------------------------ updated after construction
+_ALIGNABLE = ("Affine", "Similarity", "Rotation", "Translation", "UniformScale")
+
+
+@st.composite
+def s_op(draw, kind, d, src):
+    base = _base(kind)
+    names = ["compose_before_inplace", "compose_after_inplace"] * 2 + ["pseudoinverse", "copy"]
+    if not ((base == "Similarity" and d == 3) or (base == "Rotation" and d == 2)):
+        names += ["from_vector", "from_vector_inplace"] * 2
+    if kind != base:
+        names += ["set_target"] * 2
+    op = {"op": draw(st.sampled_from(names))}
+    if op["op"].startswith("from_vector"):
+        op["v"] = draw(s_param_vector(base, d))
+    elif op["op"].startswith("compose"):
+        # any member of the family the receiver swallows in place, plain or itself an alignment
+        mk = draw(st.sampled_from(_FAMILY[base]))
+        if mk in _ALIGNABLE and draw(st.integers(0, 4)) == 0:
+            mk = "Alignment" + mk
+        op["m"] = draw(objs.homog_case(kind=mk, d=d))
+    elif op["op"] == "set_target":
+        lin = gen.build_linear(d, draw(gen.linear_case(d)))
+        n = len(src)
+        noise = np.array(draw(st.lists(st.lists(gen.q(-0.3, 0.3), min_size=d, max_size=d), min_size=n, max_size=n)))
+        pts = np.array(src).dot(lin.T) + np.array(draw(gen.vec(d))) + noise
+        op["pts"] = [[round(float(v) * 4096) / 4096 for v in row] for row in pts]
+        op["form"] = draw(st.sampled_from(_FORMS))
+    return op
+
+
+@st.composite
+def s_sequence(draw):
+    tc = draw(objs.homog_case(kinds=objs.ALIGN_KINDS * 2 + objs.PLAIN_HOMOG_KINDS))
+    d = tc["d"]
+    c = {"t": tc,
+         "ops": draw(st.lists(s_op(tc["kind"], d, tc.get("src")), min_size=1, max_size=3)),
+         "x": draw(st.lists(gen.vec(d, -10, 10), min_size=1, max_size=5)),
+         "y": draw(st.lists(gen.vec(d, -10, 10), min_size=1, max_size=5))}
+    if tc["kind"] in objs.ALIGN_KINDS:
+        c["src_form"] = draw(st.sampled_from(_FORMS))
+        c["tgt_form"] = draw(st.sampled_from(_FORMS))
+    return c
+
+
+def c_sequence(case, ctx):
+    tc = case["t"]
+    kind, d = tc["kind"], tc["d"]
+    is_align = kind in objs.ALIGN_KINDS
+    ctx.event("class=%s" % kind)
+    t = _build(tc, case.get("src_form", "pointcloud"), case.get("tgt_form", "pointcloud"))
+    if is_align:
+        ctx.event("source=%s target=%s" % (case["src_form"], case["tgt_form"]))
+    changed = []
+    for op in case["ops"]:
+        name = op["op"]
+        if name == "pseudoinverse":
+            t.pseudoinverse()
+        elif name == "copy":
+            t = t.copy()
+        elif name.startswith("from_vector"):
+            v = np.array(op["v"], dtype=float)
+            if name == "from_vector":
+                t = t.from_vector(v)
+            else:
+                t.from_vector_inplace(v)
+            changed.append(name)
+        elif name.startswith("compose"):
+            getattr(t, name)(objs.build_homog(op["m"]))
+            changed.append(name)
+        else:
+            t.set_target(_shape(op["pts"], op["form"], d))
+            changed.append(name)
+    ctx.event("last update=%s" % (changed[-1] if changed else "none"))
+    h = np.array(t.h_matrix, dtype=float, copy=True)
+    if not np.all(np.isfinite(h)):
+        ctx.event("non-finite matrix skipped")
+        return
+    cond = rw.cond_h(h)
+    if cond > 1e5:
+        ctx.event("ill-conditioned skipped")
+        return
+    x, y = gen.arr(case["x"]), gen.arr(case["y"])
+    if _base(kind) == "Homogeneous":
+        if not np.all(rw.divisors(h, x) / h[d, d] > 0.25):
+            ctx.event("divisor near zero skipped")
+            return
+        y = rw.apply_h(h, y)
+    declared = bool(t.has_true_inverse)
+    src_obj = tgt_obj = src = tgt = None
+    if is_align:
+        src_obj, tgt_obj = t.source, t.target
+        src, tgt = np.array(src_obj.points, dtype=float), np.array(tgt_obj.points, dtype=float)
+        ctx.event("target in sync with the matrix" if close(rw.apply_h(h, src), tgt, rtol=0, atol=1e-8 * _scale(tgt) * cond) else "target NOT in sync with the matrix")
+    before = digest.digest(t)
+    inv = t.pseudoinverse()
+    dd = digest.parameter_mutation(before, digest.digest(t))
+    ctx.expect(dd is None, "transform_changed_by_pseudoinverse", lambda: "%s after %r: %r" % (kind, changed, dd))
+    fwd = t.apply(x)
+    sc = _scale(x, y, fwd, h[:d, d])
+    tol = 1e-10 * cond * sc
+    ctx.nontrivial(declared and bool(changed) and maxdiff(fwd, x) > 0.01 * 20)
+    tag = changed[-1] if changed else "fresh"
+    if declared:
+        back = inv.apply(fwd)
+        ctx.expect(close(back, x, rtol=0, atol=tol), "updated.two_sided.inv_after_t." + tag,
+                   lambda: "%s after %r cond=%.1f\n%s" % (kind, changed, cond, describe(back, x)))
+        pre = inv.apply(y)
+        again = t.apply(pre)
+        ctx.expect(close(again, y, rtol=0, atol=tol * cond), "updated.two_sided.t_after_inv." + tag,
+                   lambda: "%s after %r cond=%.1f\n%s" % (kind, changed, cond, describe(again, y)))
+        want = rw.solve_inverse_h(h, y)
+        ctx.expect(close(pre, want, rtol=0, atol=tol * cond), "updated.inverse_vs_solve_reference." + tag,
+                   lambda: "%s after %r cond=%.1f\n%s" % (kind, changed, cond, describe(pre, want)))
+    _check_honest(ctx, inv, kind)
+    _check_class(ctx, t, inv, kind)
+    if is_align:
+        _check_swap(ctx, inv, kind, src_obj, tgt_obj, src, tgt)
+    if declared:
+        _check_double(ctx, t, inv, kind, x, fwd, tol * cond, src, tgt)
+        _check_independent(ctx, t, t.pseudoinverse(), kind, x, fwd, tol)
+
+
 # ------------------------------------------------------------------------------------------ piecewise affine
 @st.composite
 def s_pwa(draw):
@@ -178,8 +558,11 @@ def s_pwa(draw):
         c["diag"] = draw(st.lists(st.booleans(), min_size=(gx - 1) * (gy - 1), max_size=(gx - 1) * (gy - 1)))
     c["unit"] = draw(st.lists(st.lists(gen.q(-1, 1), min_size=2, max_size=2), min_size=n, max_size=n))
     c["amp"] = draw(gen.q(0.02, 0.14))
-    c["lin"] = draw(gen.linear_case(2, smin=0.5, smax=2.0, allow_reflection=False))
+    # the affine part may be a reflection: then EVERY target triangle has the opposite orientation (still a bijection)
+    c["lin"] = draw(gen.linear_case(2, smin=0.5, smax=2.0, allow_reflection=True))
     c["shift"] = draw(gen.vec(2))
+    # the target may be given at construction or afterwards (set_target on a transform built towards another target)
+    c["via_set_target"] = draw(st.sampled_from([False, False, True]))
     c["px"] = draw(objs.bary_picks(1, 6))
     c["py"] = draw(objs.bary_picks(1, 6))
     # the target may itself be a TriMesh carrying its OWN (different) triangulation: the map and its inverse are
@@ -192,7 +575,8 @@ def s_pwa(draw):
 
 
 def pwa_setup(c):
-    """(source object, src array, tgt array, trilist) of a PWA case; target triangles keep their orientation."""
+    """(source object, src array, tgt array, trilist) of a PWA case; the target triangles all keep, or (reflecting
+    affine part) all reverse, their orientation."""
     src = gen.arr(c["src"])
     if c["mode"] == "grid":
         trilist = np.array(rw.grid_trilist(c["grid"][0], c["grid"][1], c["diag"]), dtype=int)
@@ -214,10 +598,12 @@ def pwa_setup(c):
 def c_pwa(c, ctx):
     source, src, tgt, trilist = pwa_setup(c)
     a_s, a_t = rw.tri_signed_areas(src, trilist), rw.tri_signed_areas(tgt, trilist)
-    if not np.all(np.sign(a_s) == np.sign(a_t)) or np.any(a_t == 0):
+    flip = -1.0 if (not c.get("near_id") and np.linalg.det(gen.build_linear(2, c["lin"])) < 0) else 1.0
+    if not np.all(np.sign(a_s) == flip * np.sign(a_t)) or np.any(a_t == 0):
         raise AssertionError("generator: a target triangle lost its orientation")
     cls = CachedPWA if c["impl"] == "CachedPWA" else PythonPWA
     ctx.event("%s source=%s" % (c["impl"], c["mode"]))
+    ctx.event("target orientation %s" % ("reversed" if flip < 0 else "kept"))
     if c.get("tgt_form", "pointcloud") == "trimesh_own":
         if c["mode"] == "grid":
             other = np.array(rw.grid_trilist(c["grid"][0], c["grid"][1], [not b for b in c["diag"]]), dtype=int)
@@ -227,7 +613,14 @@ def c_pwa(c, ctx):
         ctx.event("target=TriMesh, own trilist %s" % ("differs" if not np.array_equal(np.asarray(target_obj.trilist), trilist) else "equal"))
     else:
         target_obj = PointCloud(tgt.copy())
-    t = cls(source, target_obj)
+    if c.get("via_set_target"):
+        # built towards another target (the source turned and shifted), used once, then retargeted
+        ctx.event("target given by set_target")
+        t = cls(source, PointCloud(src[:, ::-1] * 0.5 + 3.0))
+        t.apply(src[list(trilist[0])].mean(axis=0)[None, :])
+        t.set_target(target_obj)
+    else:
+        t = cls(source, target_obj)
     ctx.expect(np.array_equal(np.asarray(t.trilist), trilist), "pwa.trilist_not_the_expected_one", "")
     declared = bool(t.has_true_inverse)
     ctx.event("has_true_inverse=%s" % declared)
@@ -236,6 +629,7 @@ def c_pwa(c, ctx):
     dd = digest.parameter_mutation(before, digest.digest(t, skip=_CACHE))
     ctx.expect(dd is None, "transform_changed_by_pseudoinverse", lambda: repr(dd))
     ctx.expect(isinstance(inv, AbstractPWA), "pwa.inverse_class", "%s -> %s" % (type(t).__name__, type(inv).__name__))
+    ctx.expect(type(inv) is type(t), "pwa.inverse_not_of_the_same_warp_class", "%s -> %s" % (type(t).__name__, type(inv).__name__))
     ctx.event("inverse class %s" % ("same" if type(inv) is type(t) else "other PWA" if isinstance(inv, AbstractPWA) else "not a PWA"))
     if not ctx.expect(isinstance(inv, Alignment), "alignment_inverse.not_an_alignment", type(inv).__name__):
         return
@@ -264,6 +658,24 @@ def c_pwa(c, ctx):
     want, outside = rw.pwa_eval(tgt, src, trilist, y)
     if ctx.expect(not outside.any(), "harness.reference_point_outside", ""):
         ctx.expect(close(pre, want, rtol=0, atol=1e-8 * sc), "pwa.inverse_vs_barycentric_reference", lambda: describe(pre, want))
+    # the inverse of the inverse is the warp again: end points and triangle list restored exactly, same class, same map
+    fwd = t.apply(x)
+    ii = inv.pseudoinverse()
+    ctx.expect(type(ii) is type(t), "double_inverse.class_differs", "%s -> %s" % (type(t).__name__, type(ii).__name__))
+    if ctx.expect(isinstance(ii, AbstractPWA), "double_inverse.not_an_alignment", type(ii).__name__):
+        ctx.expect(np.array_equal(np.asarray(ii.source.points), src), "double_inverse.source_not_restored", lambda: describe(ii.source.points, src))
+        ctx.expect(np.array_equal(np.asarray(ii.target.points), tgt), "double_inverse.target_not_restored", lambda: describe(ii.target.points, tgt))
+        ctx.expect(np.array_equal(np.asarray(ii.trilist), trilist), "double_inverse.trilist_not_restored", "")
+        f2 = ii.apply(x)
+        ctx.expect(close(f2, fwd, rtol=0, atol=1e-8 * sc), "double_inverse.map_differs", lambda: "PWA\n" + describe(f2, fwd))
+    # what is done to a returned inverse afterwards does not reach the transform
+    scratch = t.pseudoinverse()
+    ref = digest.digest(t, skip=_CACHE)
+    scratch.set_target(PointCloud(src[:, ::-1] * 1.5 + 1.0))
+    dd2 = digest.parameter_mutation(ref, digest.digest(t, skip=_CACHE))
+    ctx.expect(dd2 is None, "inverse_not_independent.retargeting_it_changes_the_transform", lambda: "PWA: %r" % (dd2,))
+    f3 = t.apply(x)
+    ctx.expect(close(f3, fwd, rtol=0, atol=1e-8 * sc), "inverse_not_independent.transform_maps_differently_afterwards", lambda: "PWA\n" + describe(f3, fwd))
     # an inverse taken AFTER the transform has been used, then fed the very values the transform saw last: points that
     # lie (with margin, by the barycentric reference) in both the source and the target domain
     cand = np.vstack([x, y, np.array([src[list(tri)].mean(axis=0) for tri in fat])])
@@ -302,6 +714,7 @@ def s_tps(draw):
     c = draw(objs.warp_case(kind="ThinPlateSplines"))
     c["msv"] = draw(st.sampled_from([1e-4, 1e-4, 1e-2]))
     c["u"] = draw(st.lists(st.lists(gen.q(-0.2, 1.2), min_size=2, max_size=2), min_size=1, max_size=6))
+    c["via_set_target"] = draw(st.sampled_from([False, False, True]))
     return c
 
 
@@ -313,7 +726,14 @@ def build_tps(src, tgt, kind, msv):
 def c_tps(c, ctx):
     src, tgt, kind, msv = gen.arr(c["src"]), gen.arr(c["tgt"]), c["rbf"], c["msv"]
     ctx.event("kernel=%s floor=%g" % (kind, msv))
-    t = build_tps(src, tgt, kind, msv)
+    if c.get("via_set_target"):
+        # built towards another target, inverted once, then retargeted: the inverse is that of the CURRENT spline
+        ctx.event("target given by set_target")
+        t = build_tps(src, src[:, ::-1] * 0.5 + 3.0, kind, msv)
+        t.pseudoinverse()
+        t.set_target(PointCloud(tgt.copy()))
+    else:
+        t = build_tps(src, tgt, kind, msv)
     before = digest.digest(t)
     inv = t.pseudoinverse()
     dd = digest.parameter_mutation(before, digest.digest(t))
@@ -347,6 +767,28 @@ def c_tps(c, ctx):
         back = inv.apply(tgt)
         ctx.expect(close(back, src, rtol=0, atol=atol), "tps.target_landmarks_not_mapped_back",
                    lambda: "kernel=%s floor=%g cond=%.2e\n%s" % (kind, msv, cond, describe(back, src)))
+    # the inverse of the inverse is the spline again: end points exactly, kernel of the same kind centred on its own
+    # source, same singular-value floor, same map (it is the same fit)
+    lo_s, hi_s = src.min(axis=0), src.max(axis=0)
+    qs = lo_s + gen.arr(c["u"]) * (hi_s - lo_s)
+    fwd = t.apply(qs)
+    ii = inv.pseudoinverse()
+    if ctx.expect(type(ii) is mt.ThinPlateSplines, "double_inverse.class_differs", type(ii).__name__):
+        ctx.expect(np.array_equal(np.asarray(ii.source.points), src), "double_inverse.source_not_restored", lambda: describe(ii.source.points, src))
+        ctx.expect(np.array_equal(np.asarray(ii.target.points), tgt), "double_inverse.target_not_restored", lambda: describe(ii.target.points, tgt))
+        ctx.expect(type(ii.kernel) is type(t.kernel), "double_inverse.kernel_kind_differs", "%s -> %s" % (type(t.kernel).__name__, type(ii.kernel).__name__))
+        ctx.expect(np.array_equal(np.asarray(ii.kernel.c), src), "double_inverse.kernel_not_centred_on_source", lambda: describe(ii.kernel.c, src))
+        ctx.expect(ii.min_singular_val == msv, "double_inverse.option_lost.min_singular_val", "%r -> %r" % (msv, ii.min_singular_val))
+        f2 = ii.apply(qs)
+        ctx.expect(close(f2, fwd, rtol=0, atol=1e-9 * _scale(src, tgt, qs, fwd)), "double_inverse.map_differs",
+                   lambda: "kernel=%s floor=%g\n%s" % (kind, msv, describe(f2, fwd)))
+    # what is done to a returned inverse afterwards does not reach the spline
+    ref_d = digest.digest(t)
+    inv.set_target(PointCloud(src[:, ::-1] * 1.5 + 1.0))
+    dd2 = digest.parameter_mutation(ref_d, digest.digest(t))
+    ctx.expect(dd2 is None, "inverse_not_independent.retargeting_it_changes_the_transform", lambda: "TPS: %r" % (dd2,))
+    f3 = t.apply(qs)
+    ctx.expect(np.array_equal(f3, fwd), "inverse_not_independent.transform_maps_differently_afterwards", lambda: "TPS\n" + describe(f3, fwd))
 
 
 # ------------------------------------------------------------------------------------------ texture coordinates
@@ -385,14 +827,26 @@ def c_tcoords(case, ctx):
 
 CLAUSES = [
     Clause("homogeneous", c_homog, s_homog, quick=3000, thorough=70000, nt_floor=0.5,
-           rule="12 homogeneous-family classes x 2-D/3-D; two-sided inverse on probes, reference solve, class-honesty table, "
-                "alignment source/target swap (against the point sets passed in), receiver unchanged"),
+           rule="12 homogeneous-family classes x 2-D/3-D (integer-typed arguments for the closed-form classes); two-sided "
+                "inverse on probes, reference solve, class-honesty table, documented class, alignment source/target swap "
+                "(against the point sets passed in), receiver unchanged, double inversion (map, end points, options, "
+                "retargeting), pseudoinverse_vector (drawn and own vector), independence of the returned inverse"),
+    Clause("sequences", c_sequence, s_sequence, quick=2500, thorough=60000, nt_floor=0.5,
+           rule="12 homogeneous-family classes (alignments twice as often; PointCloud / TriMesh / landmarked end points) "
+                "after 1-3 updates: from_vector[_inplace] with a fresh valid parameter vector, compose_{before,after}_inplace "
+                "with a plain or alignment member of the family swallowed in place, set_target, copy, an earlier "
+                "pseudoinverse(); then two-sided inverse, reference solve, honesty, class, exchange of the CURRENT end points, "
+                "double inversion, independence.  Non-trivial: at least one update took place and a probe moves"),
     Clause("pwa", c_pwa, s_pwa, quick=1200, thorough=30000, nt_floor=0.5,
            rule="PythonPWA/CachedPWA x Delaunay/explicit triangulation; x inside source, y inside target triangles; "
-                "barycentric reference inverse; landmarks return; same class; swap; receiver unchanged"),
+                "targets keeping or (reflection) reversing every orientation, given at construction or by set_target; "
+                "barycentric reference inverse; landmarks return; same class; swap; receiver unchanged; double inversion; "
+                "independence"),
     Clause("tps", c_tps, s_tps, quick=1200, thorough=30000, nt_floor=0.5,
            rule="TPS x 3 kernels x singular-value floor; inverse == fresh reverse fit == bordered-system reference off "
-                "the landmarks; target landmarks return onto source landmarks; swap; receiver unchanged"),
+                "the landmarks; target landmarks return onto source landmarks; swap; receiver unchanged; target given at "
+                "construction or by set_target after an earlier inversion; double inversion (kernel kind and centres, "
+                "floor, map); independence"),
     Clause("tcoords", c_tcoords, s_tcoords, quick=600, thorough=15000, nt_floor=0.3,
            rule="tcoords_to_image_coords / image_coords_to_tcoords are mutual inverses (shapes 2..80); non-trivial: non-square"),
 ]
